@@ -28,7 +28,8 @@ ENTRY_METHODS = [(c, m) for c in ("SupervisedOPF", "SemiSupervisedOPF", "KNNSupe
 def check(chk, repo):
     chk.explanation = EXPLANATION
     rep = Rep(chk, repo)
-    base = Effects(repo)
+    from ..common import get_effects
+    base = get_effects(repo)
     roots = list(base.registry_functions())
     for cls, m in ENTRY_METHODS:
         roots.append(repo.need_method(cls, m))
